@@ -169,7 +169,7 @@ def small_case(draw):
         dedup = False
     return {'size': 'small', 'sfields': sfields, 'tfields': tfields, 'srows': srows, 'trows': trows,
             'skey': skey, 'tkey': tkey, 'specs': specs, 'mode': mode,
-            'source_delete': draw(st.booleans()), 'dedup': dedup,
+            'source_delete': draw(st.booleans()), 'dedup': dedup, 'src_head': draw(st.integers(0, 2)) == 0,
             'bystanders': draw(st.lists(st.sampled_from(['front', 'middle', 'end']), max_size=2, unique=True))}
 
 
@@ -417,8 +417,25 @@ def check(case, ctx):
     else:
         step = dataflows.join(SRC, copy.deepcopy(c['skey']), TGT, copy.deepcopy(c['tkey']),
                               fields=copy.deepcopy(c['specs']), mode=c['mode'], source_delete=c['source_delete'])
+    src_head = bool(c.get('src_head')) and not c['dedup'] and not c['source_delete']
+    steps = [step]
+    if src_head:
+        # the source stays in the package and a later step reads only its first row: the join still sees all of it
+        def stop_early_on_source(package):
+            yield package.pkg
+            for res in package:
+                if res.res.name == SRC:
+                    def first_only(res=res):
+                        for r in res:
+                            yield r
+                            return
+                    yield first_only()
+                else:
+                    yield res
+        steps.append(stop_early_on_source)
+        classes.append('source-kept-and-read-only-partly-downstream')
     try:
-        out_desc, out = run_steps([step], desc, tables)
+        out_desc, out = run_steps(steps, desc, tables)
     except Exception as e:
         raise unexpected(e, 'join')
     names_in = [r['name'] for r in pkg]
@@ -432,6 +449,8 @@ def check(case, ctx):
     for i, n in enumerate(got_names):
         if (n.startswith('by_') or n in ('s-rc', 't-gt')) or (n == SRC and not c['dedup']):
             src_rows = pkg[names_in.index(n)]['rows']
+            if n == SRC and src_head:
+                src_rows = src_rows[:1]
             if out[i] != src_rows:
                 raise Violation('bystander-or-source-rows-changed', {'resource': n})
     ti = got_names.index(SRC if c['dedup'] else TGT)
